@@ -26,6 +26,9 @@ CHECKS = {
     "C14": ("who-may-write over statics (whole program, resolved through Lazy/ArcSwap receivers) + dominance by validation + loop membership + must-pass-through in Client::handle",
             "All-sites/all-paths structural decision over lib+bin MIR: CONFIG is stored at one site, in config::parse, reachable only over the Ok edge of Config::validate, and what is stored is the validated value; POOLS is swapped at one site, outside every loop of from_config, before the only Ok return and after every error exit; from_config/parse/reload_config have exactly the expected callers and reload rebuilds pools only on parse()==Ok; an unchanged config_hash carries the live pool over and the iteration ends without building a new bb8 pool; Client::handle re-resolves its pool by (pool_name, username) between reading a message and every checkout, checks out on that pool, refreshes router settings, and a missing pool yields Err.",
             "Atomicity of arc_swap and the timing of the reload relative to clients are not decided; CONFIG is published before from_config succeeds (valid file, unreachable servers with validate_config) is reported, not armed. " + TRUST, "DESIGN.md §4 C14"),
+    "C19": ("path-avoid over MIR CFG from every Deny/Intercept edge + def-use/control-dependence slicing of the pending-verdict variable + control dependence of the dispatch on client-settable state + field coverage of the name comparison",
+            "All-paths/all-sites structural decision over the type-checked MIR of Client::handle and the plugins: from every Deny/Intercept edge (fresh result or pending variable, both loops) no server send and, for Deny, no checkout is reachable within the iteration, consuming arms answer the client, clear the buffered batch and forget the batch's prepared statements; every send of the Sync arm is unreachable from the Deny/Intercept arms; a fresh verdict is stored only under a condition that reads the pending one; the dispatch conditions are checked for dependence on fields that the client's own SET commands assign (known finding D9); table_access compares Ident.value of the last name part, lower-cased unless quote_style is set, not the printed ObjectName; plugins==None / enabled==false return Allow, intercept precedes table_access, intercept payload ends with 'Z'.",
+            "sqlparser's visit_relations completeness is trusted; statements the parser rejects are excluded by the property. " + TRUST, "DESIGN.md §4 C19"),
 }
 
 NOT_APPLICABLE = {}
